@@ -14,6 +14,10 @@
     - [Refused]    : an error came back and no status entry carries it.
     The harness never writes [Errored] / [Panicked] (a panic is reported as an impl failure).
 
+    Administrative steps are cases of their own: [CUpdChild] (one [ca_child_update] and the signed requests sent right
+    after it; the key that has to be registered afterwards is decided from the request, not read back from the server)
+    and [CAddPub] (one [create_publisher]; the jail is derived from the handle, [jail_of]).
+
     [agrees] asks whether the model (with the ideal validator) does the same; the oracles evaluate
     the conclusions of the C12 theorems directly on what the implementation did. *)
 From KV Require Import base.Tac ident.Msg ident.Updown ident.Local.
@@ -91,7 +95,15 @@ Inductive case :=
   (** one [ca_sync_parent] of a CA whose parent is the embedded trust anchor: the TA proxy's child table before and
       after, the requests it shows to have been served (list; a request queued or a waiting response handed out,
       per key), and as which child *)
-| CLocalTa (pre : taproxy) (cl : caller) (reqs : list req) (post : taproxy) (served_as : option handle).
+| CLocalTa (pre : taproxy) (cl : caller) (reqs : list req) (post : taproxy) (served_as : option handle)
+  (** one [ca_child_update] for child [c] (a new ID certificate, a new resource set, or both in ONE request; [ok] =
+      it returned without error), the parent right after it ([mid]), and the signed requests sent next, in order
+      (user agent, message, parent afterwards, outcome) - at least one signed with the key registered before the
+      update and one signed with the key of the ID certificate the update carried *)
+| CUpdChild (pre : parent) (c : handle) (u : child_upd) (ok : bool) (mid : parent)
+            (probes : list (N * msg req * parent * outcome reply))
+  (** one [create_publisher] for handle [h] with ID key [k] ([ok] = no error) *)
+| CAddPub (pre : repo) (h : handle) (k : key) (ok : bool) (post : repo).
 
 (** What the model may be given for an observed message: untouched bytes are intact; flipped bytes
     are not intact - unless they still decode to the identical content, in which case either. *)
@@ -132,6 +144,14 @@ Definition tachild_eqb (a b : tachild) : bool :=
   && opt_eqb nb_eqb (tc_last a) (tc_last b).
 Definition ta_eqb (a b : taproxy) : bool := amap_eqb tachild_eqb (ta_children a) (ta_children b) && (ta_hist a =? ta_hist b).
 
+Fixpoint probes_agree (st : parent) (ps : list (N * msg req * parent * outcome reply)) : bool :=
+  match ps with
+  | [] => true
+  | (ua, m, post, out) :: r =>
+      (let (st', o) := rfc6492 ideal_validate st ua m in parent_eqb st' post && outcome_eqb reply_eqb o out)
+      && probes_agree post r
+  end.
+
 Definition agrees (c : case) : bool :=
   match c with
   | C6492 pre ua m corrupt same post out =>
@@ -146,6 +166,10 @@ Definition agrees (c : case) : bool :=
       let (rp', w) := local8181_run pre cl qs in repo_eqb rp' post && opt_eqb N.eqb w who
   | CLocalTa pre cl reqs post who =>
       let (st', w) := ta_run pre cl reqs in ta_eqb st' post && opt_eqb N.eqb w who
+  | CUpdChild pre c u ok mid probes =>
+      (let (st', ok') := child_update c u pre in parent_eqb st' mid && Bool.eqb ok ok') && probes_agree mid probes
+  | CAddPub pre h k ok post =>
+      let (rp', ok') := create_publisher h k pre in repo_eqb rp' post && Bool.eqb ok ok'
   end.
 
 (** ** Oracle 1: [c12_ok] - acted upon => signed by the key registered for the claimed sender and
@@ -155,6 +179,43 @@ Definition registered_key_is (st : parent) (c : handle) (k : key) : bool :=
   match aget c (p_children st) with Some ch => ch_id ch =? k | None => false end.
 Definition publisher_key_is (rp : repo) (h : handle) (k : key) : bool :=
   match aget h (r_pubs rp) with Some pb => pb_id pb =? k | None => false end.
+
+(** After a child update. The key that has to be registered for child [c] afterwards is decided here, from the
+    request alone and NOT from what the server shows: an update that carried an ID certificate and returned
+    without error leaves the new key registered, whatever else it carried; one without an ID certificate leaves
+    the key alone. (An update with an ID certificate that returned an error may have stopped before or after the
+    ID part: either key, and the probes are judged by what is registered.) *)
+Definition registered_key (st : parent) (c : handle) : option key := option_map ch_id (aget c (p_children st)).
+Definition key_after_update (pre : parent) (c : handle) (u : child_upd) (ok : bool) : option key :=
+  match aget c (p_children pre) with
+  | None => None
+  | Some ch => match u_id u with Some k => if ok then Some k else None | None => Some (ch_id ch) end
+  end.
+Definition upd_key_ok (pre : parent) (c : handle) (u : child_upd) (ok : bool) (mid : parent) : bool :=
+  match aget c (p_children pre) with
+  | None => negb (amem c (p_children mid))
+  | Some ch => match key_after_update pre c u ok, u_id u with
+               | Some k, _ => registered_key_is mid c k
+               | None, Some k => registered_key_is mid c k || registered_key_is mid c (ch_id ch)
+               | None, None => false
+               end
+  end.
+(** Every request after the update: acted upon only if signed with the key that has to be registered for its sender
+    (for [c]: the key decided above); refused: nothing changed - and an intact list request signed with exactly
+    that key must not be refused. *)
+Fixpoint probes_ok (kexp : option key) (c : handle) (st : parent) (ps : list (N * msg req * parent * outcome reply)) : bool :=
+  match ps with
+  | [] => true
+  | (ua, m, post, out) :: r =>
+      let k := if sender m =? c then match kexp with Some k => Some k | None => registered_key st c end
+               else registered_key st (sender m) in
+      match out with
+      | Refused => parent_eqb st post &&
+                   negb (match payload m with RList => true | _ => false end && intact m && opt_eqb N.eqb k (Some (signed_by m)))
+      | Errored c' | Failed c' | Served c' _ => (c' =? sender m) && opt_eqb N.eqb k (Some (signed_by m)) && intact m
+      | Panicked => false
+      end && probes_ok kexp c post r
+  end.
 
 Definition c12_ok (c : case) : bool :=
   match c with
@@ -187,6 +248,10 @@ Definition c12_ok (c : case) : bool :=
       | None => ta_eqb pre post                           (* refused: no queued request, no status entry *)
       | Some c => match aget c (ta_children pre) with Some ch => tc_id ch =? cl_id cl | None => false end
       end
+  | CUpdChild pre c u ok mid probes =>
+      upd_key_ok pre c u ok mid && probes_ok (key_after_update pre c u ok) c mid probes
+  | CAddPub pre h k ok post =>
+      if ok then publisher_key_is post h k && negb (amem h (r_pubs pre)) else repo_eqb pre post
   end.
 
 (** ** Oracle 2: [c12_confined] - the boolean form of [confined] / [confined8181] plus the
@@ -235,6 +300,39 @@ Definition confined_for (pre post : parent) (c : handle) : bool :=
   | None => parent_eqb pre post
   end.
 
+(** The jail is derived from the HANDLE ([jail_of]: the directory named like the handle, for every handle other
+    than exactly "ta"), not from the base URI the server stores or reports. *)
+Definition own_dir_b (h : handle) (rp0 rp : repo) : bool :=
+  match aget h (r_pubs rp0), aget h (r_pubs rp) with
+  | Some x, Some y =>
+      forallb (fun u => opt_eqb N.eqb (uget u (pb_objs y)) (uget u (pb_objs x)) || prefix_b (jail_of h) u)
+              (map fst (pb_objs x) ++ map fst (pb_objs y))
+  | _, _ => true
+  end.
+
+(** What a child update may change: identity and entitlement of child [c] - nothing else. *)
+Definition upd_confined (pre : parent) (c : handle) (u : child_upd) (ok : bool) (mid : parent) : bool :=
+  (p_handle mid =? p_handle pre) && (p_id mid =? p_id pre) && amap_eqb rc_eqb (p_classes pre) (p_classes mid) &&
+  forallb (fun c' => if c' =? c
+                     then match aget c (p_children pre), aget c (p_children mid) with
+                          | Some x, Some y =>
+                              amap_eqb uk_eqb (ch_used x) (ch_used y) && Bool.eqb (ch_susp x) (ch_susp y)
+                              && opt_eqb last_eqb (ch_last x) (ch_last y)
+                              && match u_res u with
+                                 | Some r => if ok then ch_ent y =? r else (ch_ent y =? r) || (ch_ent y =? ch_ent x)
+                                 | None => ch_ent y =? ch_ent x
+                                 end
+                          | None, None => true
+                          | _, _ => false
+                          end
+                     else opt_eqb child_eqb (aget c' (p_children mid)) (aget c' (p_children pre)))
+          (keys_of (p_children pre) (p_children mid)).
+Fixpoint probes_confined (st : parent) (ps : list (N * msg req * parent * outcome reply)) : bool :=
+  match ps with
+  | [] => true
+  | (_, m, post, _) :: r => confined_for st post (sender m) && probes_confined post r
+  end.
+
 Definition c12_confined (c : case) : bool :=
   match c with
   | C6492 pre _ m _ _ post out =>
@@ -248,32 +346,50 @@ Definition c12_confined (c : case) : bool :=
       | _, _ => true
       end
   | C8181 pre m _ _ post out =>
-      (confined8181_b (sender m) pre post || repo_eqb pre post) &&
+      (confined8181_b (sender m) pre post || repo_eqb pre post) && own_dir_b (sender m) pre post &&
       match out, payload m, aget (sender m) (r_pubs pre) with
       | Served _ r, QDelta d, Some pb =>
           match payload r with
-          | PSuccess => forallb (fun e => prefix_b (pb_jail pb) (elem_uri e)) d
+          | PSuccess => forallb (fun e => prefix_b (pb_jail pb) (elem_uri e) && prefix_b (jail_of (sender m)) (elem_uri e)) d
           | _ => repo_eqb pre post
           end
       | _, _, _ => true
       end
   | CLocal pre cl _ post _ => confined_for pre post (cl_contact_child cl)
-  | CLocal8181 pre cl _ post _ => confined8181_b (cl_handle cl) pre post || repo_eqb pre post
+  | CLocal8181 pre cl _ post _ => (confined8181_b (cl_handle cl) pre post || repo_eqb pre post) && own_dir_b (cl_handle cl) pre post
   | CLocalTa pre cl _ post _ =>
       forallb (fun c' => (c' =? cl_contact_child cl) || opt_eqb tachild_eqb (aget c' (ta_children post)) (aget c' (ta_children pre)))
               (keys_of (ta_children pre) (ta_children post))
+  | CUpdChild pre c u ok mid probes => upd_confined pre c u ok mid && probes_confined mid probes
+  | CAddPub pre h k ok post =>
+      if ok then
+        match aget h (r_pubs post) with
+        | Some pb => uri_eqb (pb_jail pb) (jail_of h) && match pb_objs pb with [] => true | _ => false end
+        | None => false
+        end &&
+        (r_id post =? r_id pre) &&
+        forallb (fun h' => (h' =? h) || opt_eqb pub_eqb (aget h' (r_pubs post)) (aget h' (r_pubs pre)))
+                (keys_of (r_pubs pre) (r_pubs post))
+      else repo_eqb pre post
   end.
 
 (** ** Oracle 3: [c12_reply] - replies are signed with the server side's current identity key
     (reply_signed_with_current_id). *)
+Definition reply_ok6492 (pre : parent) (m : msg req) (post : parent) (out : outcome reply) : bool :=
+  match out with
+  | Served c r => (signed_by r =? p_id pre) && (p_id post =? p_id pre) && intact r
+                  && (sender r =? p_handle pre) && (recipient r =? sender m)
+  | _ => true
+  end.
+Fixpoint probes_reply (st : parent) (ps : list (N * msg req * parent * outcome reply)) : bool :=
+  match ps with
+  | [] => true
+  | (_, m, post, out) :: r => reply_ok6492 st m post out && probes_reply post r
+  end.
+
 Definition c12_reply (c : case) : bool :=
   match c with
-  | C6492 pre _ m _ _ post out =>
-      match out with
-      | Served c r => (signed_by r =? p_id pre) && (p_id post =? p_id pre) && intact r
-                      && (sender r =? p_handle pre) && (recipient r =? sender m)
-      | _ => true
-      end
+  | C6492 pre _ m _ _ post out => reply_ok6492 pre m post out
   | C8181 pre m _ _ post out =>
       match out with
       | Served _ r => (signed_by r =? r_id pre) && (r_id post =? r_id pre) && intact r
@@ -282,6 +398,8 @@ Definition c12_reply (c : case) : bool :=
   | CLocal _ _ _ _ _ => true
   | CLocal8181 _ _ _ _ _ => true
   | CLocalTa _ _ _ _ _ => true
+  | CUpdChild _ _ _ _ mid probes => probes_reply mid probes
+  | CAddPub _ _ _ _ _ => true
   end.
 
 (** Indices of cases on which a predicate fails. *)
@@ -312,3 +430,28 @@ Definition f12b_case : case :=
 Definition f12b_repaired_case : case :=
   let r := mkRepo 50 [(7, mkPub 70 [7] [([7; 1], 5)])] 0 in
   CLocal8181 r (mkCaller 7 99 0) [QList] r None.
+
+(** Self-test for the two administrative cases: what a tree does that drops the ID certificate of an update which
+    also carries resources (the update succeeds, the replaced key is still served, the new one refused), and what a
+    tree does that gives a publisher whose handle merely starts like "ta" the whole repository as its jail. *)
+Definition upd_parent : parent :=
+  mkParent 2 10 [(0, mkRC (Some 255) [] [])] [(5, mkChild 20 3 [] false None); (6, mkChild 30 12 [] false None)] 7.
+Definition upd_dropped_id_case : case :=
+  let mid := mkParent 2 10 [(0, mkRC (Some 255) [] [])] [(5, mkChild 20 7 [] false None); (6, mkChild 30 12 [] false None)] 8 in
+  let post := mkParent 2 10 [(0, mkRC (Some 255) [] [])] [(5, mkChild 20 7 [] false (Some (4, true))); (6, mkChild 30 12 [] false None)] 8 in
+  CUpdChild upd_parent 5 (mkUpd (Some 21) (Some 7)) true mid
+            [(4, mkMsg 5 2 RList 20 true, post, Served 5 (mkMsg 2 5 (RepList [(0, 7, [])]) 10 true));
+             (5, mkMsg 5 2 RList 21 true, post, Refused)].
+Definition upd_honest_case : case :=
+  let mid := mkParent 2 10 [(0, mkRC (Some 255) [] [])] [(5, mkChild 21 7 [] false None); (6, mkChild 30 12 [] false None)] 9 in
+  let post := mkParent 2 10 [(0, mkRC (Some 255) [] [])] [(5, mkChild 21 7 [] false (Some (5, true))); (6, mkChild 30 12 [] false None)] 9 in
+  CUpdChild upd_parent 5 (mkUpd (Some 21) (Some 7)) true mid
+            [(4, mkMsg 5 2 RList 20 true, mid, Refused);
+             (5, mkMsg 5 2 RList 21 true, post, Served 5 (mkMsg 2 5 (RepList [(0, 7, [])]) 10 true))].
+Definition wide_jail_add_case : case :=
+  CAddPub (mkRepo 50 [(7, mkPub 70 [7] [])] 0) 8 80 true (mkRepo 50 [(8, mkPub 80 [] []); (7, mkPub 70 [7] [])] 1).
+Definition wide_jail_publish_case : case :=
+  C8181 (mkRepo 50 [(8, mkPub 80 [] []); (7, mkPub 70 [7] [])] 0) (mkMsg 8 0 (QDelta [EPub [7; 100] 3]) 80 true) false false
+        (mkRepo 50 [(8, mkPub 80 [] [([7; 100], 3)]); (7, mkPub 70 [7] [])] 1) (Served 8 (mkMsg 0 0 PSuccess 50 true)).
+Definition honest_add_case : case :=
+  CAddPub (mkRepo 50 [(7, mkPub 70 [7] [])] 0) 8 80 true (mkRepo 50 [(8, mkPub 80 [8] []); (7, mkPub 70 [7] [])] 1).
